@@ -127,6 +127,13 @@ func (res *Result) GetNodeSetResult() ([]xutils.XpathNode, error) {
 		return nil, fmt.Errorf("No result to return for nodeset.")
 	}
 
+	// Nothing but a nodeset converts to a nodeset, and outside Run() the
+	// panic of the failed conversion would not be caught.
+	if _, ok := res.value.(nodesetDatum); !ok {
+		return nil, fmt.Errorf("Result is a %s, not a nodeset.",
+			res.value.name())
+	}
+
 	return res.value.Nodeset("GetNodesetResult"), nil
 }
 
